@@ -1,0 +1,7 @@
+//go:build verif
+
+package versioned
+
+// Contracts for the verification framework in /verif (comment-only).
+//@ func (Interface).GalaxyV1alpha1 trusted noeffect
+//@   ensures result != nil
